@@ -50,6 +50,25 @@ def r1_generator_plumbing(chk: Check) -> None:
     bcf = P.func(f"{HYP}:_build_custom_formats")
     guarded = [n for n, _b in ptests("not $c.allow_x00", bcf.node) if isinstance(n, ast.If) and phas("$f[HEADER_FORMAT] = header_values(blacklist_characters=$_)", n.body)]
     chk.expect(bool(guarded), "C01.R1", bcf, "header values exclude NUL when allow_x00 is off", "restriction of the header format not recognised", bcf.loc())
+    # NOT-SHADOWED: every store of Schemathesis' own header strategy (`header_values(...)`) either blacklists NUL or sits where
+    # allow_x00 is known to be on; the only branch that may come first is the user's explicit header strategy
+    gb = cfg_of(bcf)
+    for a in walk_body(bcf.node):
+        if not (isinstance(a, ast.Assign) and any(isinstance(t, ast.Subscript) and unparse(t.slice) == "HEADER_FORMAT" for t in a.targets)):
+            continue
+        if not (isinstance(a.value, ast.Call) and last_attr(a.value) == "header_values"):
+            continue
+        bl = kwarg(a.value, "blacklist_characters") or (a.value.args[0] if a.value.args else None)
+        has_nul = bl is not None and isinstance(bl, ast.Constant) and isinstance(bl.value, str) and "\x00" in bl.value
+        facts = known_conditions(gb, gb.stmt_nodes_containing(a))
+        x00_on = next((v for k, v in facts.items() if k.endswith("allow_x00")), None)
+        construct = f"`{unparse(a, 70)}` respects allow_x00"
+        if has_nul or x00_on is True:
+            chk.ok("C01.R1", bcf, construct, "NUL blacklisted" if has_nul else "only when NUL is allowed", bcf.loc(a))
+        else:
+            chk.violation("C01.R1", bcf, construct,
+                          "this branch installs Schemathesis' own header strategy WITHOUT `\\x00` in the blacklist and is not restricted to `allow_x00=True`: when it is taken (placed before the `not allow_x00` arm it shadows it) plain string headers / cookies contain NUL although NUL characters are disabled",
+                          bcf.loc(a))
     for name in ("make_positive_strategy", "make_negative_strategy"):
         f = P.func(f"{HYP}:{name}")
         built = pfind("$v = _build_custom_formats($a, $g)", f.node)
